@@ -28,6 +28,8 @@ type recCase struct {
 	Err     bool       `json:"err"`
 	Panic   string     `json:"panic,omitempty"`
 	Res     []eRes     `json:"res"`
+	Recased []int      `json:"recased"`
+	ResRe   []eRes     `json:"res_recased"`
 }
 
 func recRun(c *recCase, cmds []database.Command, dir string) {
@@ -55,6 +57,8 @@ func recRun(c *recCase, cmds []database.Command, dir string) {
 		res, err := recovery.NewSearchRecovery().RecoverFromSearchFailure(q, nil, db)
 		c.Err = err != nil
 		c.Res = projectResults(db, res)
+		res2, _ := recovery.NewSearchRecovery().RecoverFromSearchFailure(fromInts(c.Recased), nil, db)
+		c.ResRe = projectResults(db, res2)
 	}()
 	os.Stdout = old
 	null.Close()
@@ -110,7 +114,7 @@ func runC01Rec(seed int64, n int, replay string, e *emitter) {
 			if json.Unmarshal(raw, &c) != nil {
 				continue
 			}
-			in := recCase{ID: c.ID, Seed: c.Seed, Family: "rec", Query: c.Query}
+			in := recCase{ID: c.ID, Seed: c.Seed, Family: "rec", Query: c.Query, Recased: c.Recased}
 			recRun(&in, fromECmds(c.DB), dir)
 			e.emit(in)
 		}
@@ -120,6 +124,7 @@ func runC01Rec(seed int64, n int, replay string, e *emitter) {
 		r := rand.New(rand.NewSource(seed*1000003 + int64(i)))
 		cmds := eGenDB(r)
 		c := recCase{ID: i, Seed: seed, Family: "rec", Query: ints(recQuery(r, cmds))}
+		c.Recased = ints(recase(r, fromInts(c.Query)))
 		recRun(&c, cmds, dir)
 		e.emit(c)
 	}
